@@ -330,6 +330,11 @@ func lookups(c *engine.Ctx, r *rand.Rand, evals *int64) {
 		mk([]string{"HTTP", "g"}, "R.COM", 18, kv{2, u32p(2)}, 700),
 		mk(P, "R.COM", 18, kv{0, u32p(300)}, 50), // 32-bit kvno only
 		mk(P, "R.COM", 18, kv{2, u32p(2)}, 200),  // duplicate criteria, same timestamp, other key
+		// names that render to the same text as another split of components / realm
+		mk([]string{"HTTP/h"}, "R.COM", 18, kv{2, u32p(2)}, 800),
+		mk([]string{}, "R.COM", 18, kv{2, u32p(2)}, 810),
+		mk([]string{"svc"}, "B@R.COM", 18, kv{2, u32p(2)}, 820),
+		mk([]string{""}, "R.COM", 18, kv{2, u32p(2)}, 830),
 	}
 	type query struct {
 		princ []string
@@ -338,8 +343,8 @@ func lookups(c *engine.Ctx, r *rand.Rand, evals *int64) {
 		et    int32
 	}
 	var qs []query
-	for _, p := range [][]string{P, {"HTTP"}, {"HTTP", "h", "x"}, {"HTTP", "g"}, {"http", "h"}, {}} {
-		for _, rl := range []string{"R.COM", "OTHER.COM", "r.com", ""} {
+	for _, p := range [][]string{P, {"HTTP"}, {"HTTP", "h", "x"}, {"HTTP", "g"}, {"http", "h"}, {}, {"HTTP/h"}, {""}, {"svc@B"}, {"svc"}, {"HTTP", "h/x"}, {"", ""}} {
+		for _, rl := range []string{"R.COM", "OTHER.COM", "r.com", "", "B@R.COM"} {
 			for _, k := range []int{0, 1, 2, 3, 4, 300, 256} {
 				for _, et := range []int32{18, 17, 23} {
 					qs = append(qs, query{p, rl, k, et})
